@@ -25,13 +25,13 @@ import subprocess
 from typing import Any
 
 from detsim import env, gen, minimize, parseop, rng, runner, simfs
-from detsim.observe import exc_token, observe_chart
+from detsim.observe import exc_token, hashes, observe_chart
 from detsim.sched import HarnessError, Scheduler, make_abort_exc
 
 PROP = "C17"
 LEVEL = "exploration"
 RUNS = {"quick": 1200, "thorough": 40000}
-BUDGET_S = {"quick": 90, "thorough": 1500}
+BUDGET_S = {"quick": 150, "thorough": 1500}
 FRESH_EVERY = {"quick": 20, "thorough": 12}
 RULE = ("each evaluation is one simulated run: a corpus of 3-8 texts, 1-4 caller threads with "
         "1-6 parse operations each, one seeded schedule and one fault sub-batch. Distinct = "
@@ -644,6 +644,9 @@ def execute(plan: dict[str, Any]) -> dict[str, Any]:
                                 vio("eq-false", f"client {ci} op {k} text {op['text']}: result does "
                                                 "not compare equal to an earlier result for the same "
                                                 "text and selection")
+                            elif hashes(prev) != hashes(chart):
+                                vio("hash-differs", f"client {ci} op {k} text {op['text']}: the events of "
+                                                    "two equal results for the same text hash differently")
 
         return body
 
